@@ -1,5 +1,5 @@
 SPECIFICATION Spec
 CONSTANTS
   Mutant = "none"
-INVARIANTS SubstAgreesMC KeyParamBoundMC OwnCodecsMC
+INVARIANTS SubstAgreesMC KeyParamBoundMC OwnCodecsMC MultiAgreesMC
 CHECK_DEADLOCK FALSE
